@@ -115,8 +115,20 @@ fn panic_sig(p: &PanicInfo) -> String {
 pub fn check(prop: P, case: &Case, cfg: &RunCfg, order: (usize, u64, u32), acc: &mut Acc) {
     let cfg = prop.shape(cfg.clone());
     let sem = Sem::new(&case.u, &case.p);
-    let res = run_case(&case.u, &case.p, &cfg);
+    let mut res = run_case(&case.u, &case.p, &cfg);
     acc.evaluations += 1;
+    if matches!(res.outcome, Outcome::Horizon) && crate::sweep::kill_requested() {
+        // stopped by the wall-clock monitor: run it once more before calling it non-termination
+        // (on a loaded machine a healthy execution can be descheduled for longer than the limit)
+        crate::sweep::rearm();
+        res = run_case(&case.u, &case.p, &cfg);
+        acc.evaluations += 1;
+        if matches!(res.outcome, Outcome::Horizon) {
+            acc.count("wall_limit_hits_reproduced");
+        } else {
+            acc.count("wall_limit_hits_not_reproduced");
+        }
+    }
     let nl = learnt_count(&res.dump);
     if nl >= 1 {
         acc.count("runs_with_learnt_clause");
